@@ -24,6 +24,10 @@ prop("C20",
      unit_ops={"synlr", "perridx"},
      assumptions=["String::from_utf8_lossy / format! used by Error::syntax do not panic (std)", "the serde visitor error path reaches Parser::fix_position (checked by the API-level cases only)"])
 
+prop("C02",
+     rule="structured documents (1/3 valid, 2/3 mutated once or twice) + nesting depth around both limits + exhaustive token sequences over 16 tokens (length<=3 quick, <=5 thorough) x {LazyValue, OwnedLazyValue, IgnoredAny, Value, serde_json::Value, Vec<Value>, HashMap<String,Value>} x {from_slice, from_str, from_reader, Deserializer::from_json over Bytes/FastStr}; non-trivial = distinct input longer than 2 bytes",
+     assumptions=["simdutf8 decides UTF-8 validity (modelled by Spec.Ref.utf8_valid; compared on every case)", "completeness of the container skipper is validated, not yet proved (skip_value_sound is proved)"])
+
 def classify_known(pid, case, known):
     """return the id of the recorded known finding this mismatch belongs to, or None"""
     for k in known:
